@@ -197,6 +197,14 @@ func classifyMapRange(p *packages.Package, cg *CallGraph, fd *ast.FuncDecl, rs *
 						if bo := baseObj(ix.X); bo != nil && (local[bo] || keyObjs[bo]) {
 							continue
 						}
+						// an element write at a running position fills the slice in iteration order, exactly as append
+						// does: harmless if the slice is sorted before it is used (checked below for appended slices)
+						if bo := baseObj(ix.X); bo != nil {
+							if _, isSlice := info.TypeOf(ix.X).Underlying().(*types.Slice); isSlice {
+								appended[bo] = s.Pos()
+								continue
+							}
+						}
 						v := bad("writes slice element " + exprString(p.Fset, l))
 						return &v
 					}
